@@ -2206,7 +2206,7 @@ void	ADF_Move_Child(
 
 unsigned int        parent_file_index, child_file_index,
                     new_parent_file_index, file_index ;
-char     child_name[ ADF_NAME_LENGTH ] ;
+char     child_name[ ADF_NAME_LENGTH+1 ] ;
 int      found ;
 struct DISK_POINTER parent, child, new_parent, sub_node_entry_location ;
 struct SUB_NODE_TABLE_ENTRY  sub_node_entry ;
